@@ -1,4 +1,5 @@
 """C03 -- the address mapping is a pure function of salt and options, not of history."""
+import io
 import ipaddress
 import os
 import random
@@ -185,6 +186,14 @@ def _hist(ctx, case):
             if not isinstance(a, int):
                 a = 0
         concrete.append([op, a])
+        if i % 7 == 3 and hasattr(S, "dump_to_file"):
+            # the map is written out in the middle of a session (a library user dumping after every file)
+            try:
+                S.dump_to_file(io.StringIO())
+                ctx.count("mid_session_dumps")
+            except Exception as e:
+                ctx.violation(dict(case, hist=concrete), "exception:%s:dump_to_file" % type(e).__name__, "dump_to_file raised %s" % e)
+                return
         got = ask(S, op, a)
         results.append(got)
         fresh = ipgen.build(cfg)
